@@ -1,8 +1,10 @@
 #!/bin/bash
-# usage: seed_import.sh <Cxx> <A|B>   : copy an agent deliverable into /verif/seeded/<Cxx>-<X>/, confirm it in the scratch worktree, run detection
+# usage: seed_import.sh <Cxx> <A|B> [<source subdir> <kept name>]
+#   copy an agent deliverable into /verif/seeded/<Cxx>-<X>/, confirm it in the scratch worktree, run detection
+#   e.g. seed_import.sh C05 A round2 C   takes /tmp/seedout/C05/round2/patchA.diff and keeps it as seeded/C05-C
 set -e
-P=$1; X=$2
-SRC=/tmp/seedout/$P; D=/verif/seeded/$P-$X; WT=/tmp/seed_$P
+P=$1; X=$2; SUB=${3:-}; NAME=${4:-$X}
+SRC=/tmp/seedout/$P/$SUB; D=/verif/seeded/$P-$NAME; WT=/tmp/seed_$P
 mkdir -p $D
 cp $SRC/patch$X.diff $D/patch.diff; cp $SRC/demo$X.py $D/demo.py; cp $SRC/meta$X.json $D/agent_meta.json
 git -C $WT checkout -q -- . ; git -C $WT checkout -q --detach $(git -C /repo rev-parse HEAD)
